@@ -276,7 +276,12 @@ func evalSession(inputs []string, entry string) (res string, errs []string) {
 	s.MaxDepth = 200
 	defer func() {
 		if r := recover(); r != nil {
-			res = out.String() + fmt.Sprintf("|PANIC %v", r)
+			// the memory guard's message carries the free memory of the moment: not part of the comparison
+			msg := fmt.Sprint(r)
+			if i := strings.Index(msg, " objects, "); i >= 0 && strings.HasPrefix(msg, "would exceed memory") {
+				msg = msg[:i] + " objects"
+			}
+			res = out.String() + "|PANIC " + msg
 		}
 	}()
 	for _, in := range inputs {
